@@ -9,7 +9,8 @@ from . import gen
 
 def _knobs(rng, *, conc=True):
     return {
-        "mode": rng.choice(["threads", "threads", "procs", "forked"]),
+        "mode": rng.choice(["threads", "threads", "procs", "forked", "procs", "forked", "mixed"]),
+        "fork_at": rng.choice(["spawn", "spawn", "first_run"]),
         "line_preempt": conc and rng.random() < 0.25,
         "pool": rng.choice(["serial", "sim", "sim"]),
         "pool_workers": rng.choice([1, 2, 3, 16]),
@@ -166,6 +167,9 @@ def plan_c17(seed: int, *, faults=True) -> dict:
                 "path_kind": rng.choice(["str", "path"])}
         if rng.random() < 0.12:
             sess["recreate"] = rng.choice(["drop_first", "drop_after"])
+        if rng.random() < 0.3:
+            # the same output file spelled differently from session to session
+            sess["spelling"] = rng.choice(["absolute", "relative", "dotted", "updown", "symlink"])
         if not last and rng.random() < 0.3:
             # a partial submission: only some subjects in this session
             keep = [t for t in sess["tasks"] if rng.random() < 0.7] or sess["tasks"][:1]
